@@ -241,11 +241,13 @@ func genCase(r *rng.R, model int, op uint8) *cpuCase {
 // cpu1: every opcode of both models, n cases each
 func cpu1(seed uint64, n int, tier string) {
 	root := rng.New(seed)
-	for model := 0; model < 2; model++ {
-		for op := 0; op < 256; op++ {
-			r := root.Fork()
-			for i := 0; i < n; i++ {
-				c := genCase(r, model, uint8(op))
+	// opcode by opcode, the two CPU models ALTERNATING (a CPU object of one model must not be influenced by CPUs of the
+	// other model created earlier in the same process)
+	for op := 0; op < 256; op++ {
+		forks := []*rng.R{root.Fork(), root.Fork()}
+		for i := 0; i < n; i++ {
+			for model := 1; model >= 0; model-- {
+				c := genCase(forks[model], model, uint8(op))
 				res := runGo(c)
 				count("kind." + strings.SplitN(res, " ", 2)[0])
 				emit(c.request() + " => " + res)
@@ -353,6 +355,13 @@ func cpuRuns(seed uint64, n int) {
 		x0 := p.X
 		var runs, outs []string
 		for k := 0; k < 2+r.Intn(5); k++ {
+			if r.Chance(15) {
+				// Reset between runs (what the snapshot provider does before every test case): the counter is zero again
+				p.Reset()
+				runs = append(runs, "0000:2")
+				outs = append(outs, fmt.Sprintf("reset:%d", p.NumCycles()))
+				continue
+			}
 			pc := starts[r.Intn(len(starts))]
 			reset := r.Chance(30)
 			err := p.RunExt(pc, reset)
